@@ -46,19 +46,43 @@ def same_everywhere(ta, tb, rng, what, res, case, replay_extra):
     return True
 
 
-def model_correspondence(cr, items, impl_tree, res, case, rng):
+# the implementations the functions_map streams use, as (parameters, body): what the Python lambdas compute on symbolic arguments
+IMPL_TREES = {
+    "f": (("x",), E.bin_("+", E.bin_("*", E.sym("x"), E.sym("x")), E.num(1))),
+    "g": (("x",), E.bin_("+", E.bin_("*", E.num(2), E.sym("x")), E.num(3))),
+    "h": (("x", "y"), E.bin_("+", E.sym("x"), E.bin_("*", E.num(2), E.sym("y")))),
+}
+IMPL_LAMBDAS = {"f": (lambda x: x * x + 1), "g": (lambda x: 2 * x + 3), "h": (lambda x, y: x + 2 * y)}
+# other implementations under the SAME names (a later evaluate call of the same process must use the ones it is given)
+IMPL_TREES_B = {
+    "f": (("x",), E.bin_("*", E.num(3), E.sym("x"))),
+    "g": (("x",), E.bin_("+", E.sym("x"), E.num(10))),
+    "h": (("x", "y"), E.bin_("-", E.bin_("*", E.sym("x"), E.sym("y")), E.num(1))),
+}
+IMPL_LAMBDAS_B = {"f": (lambda x: 3 * x), "g": (lambda x: x + 10), "h": (lambda x, y: x * y - 1)}
+
+
+def model_correspondence(cr, items, impl_tree, res, case, rng, fns=(), trees=None):
     """the Lean model of `_evaluate_internal` (about which C05's theorems are stated) on the same compiled routine and the
-    same assignment: ports, resources, repetition and remaining input parameters of every node must agree"""
+    same assignment (and the same functions_map, in dictionary order): ports, resources, repetition and remaining input
+    parameters of every node must agree"""
     from .. import model, pipeline
 
     try:
         line = "evaluate " + E.croutine_sexp(cr) + " (" + " ".join(f"({k} {E.to_sexp(v)})" for k, v in items) + ")"
+        if fns:
+            trees = trees or IMPL_TREES
+            line += " (" + " ".join(f"({k} ({' '.join(trees[k][0])}) {E.to_sexp(trees[k][1])})" for k in fns) + ")"
     except ValueError:
         res.stats["model_evaluate_unsupported_expression"] += 1
         return
     r = model.run_driver([line])[0]
     res.stats["model_vs_impl_compared"] += 1
+    if fns:
+        res.stats["model_vs_impl_with_functions_map"] += 1
     replay = {"qref": case.qref, "assignments_in_order": [[k, E.to_str(v)] for k, v in items]}
+    if fns:
+        replay["functions_map"] = list(fns)
     if r[0] != "ok":
         res.disagreement("evaluate vs Bartiq.evaluate (outcome)", replay, str(r)[:200], "ok")
         return
@@ -308,7 +332,7 @@ def functions_stream(ctx):
     """functions_map must reach EVERY call of the named function: nested in itself, nested across the hierarchy
     (a parent hands f(N) to a child that computes f(n)), inside other functions, in ports and resources."""
     rng = ctx.rng
-    impls = {"f": (lambda x: x * x + 1), "g": (lambda x: 2 * x + 3), "h": (lambda x, y: x + 2 * y)}
+    impls = IMPL_LAMBDAS
     for i in range(ctx.n(120, 2500)):
         t_child = gen_fexpr(rng, ["n", "k"], 3)
         t_loc = gen_fexpr(rng, ["N"], 2)
@@ -323,39 +347,47 @@ def functions_stream(ctx):
             ctx.stats["functions_stream_compile_" + st] += 1
             continue
         which = rng.choice([["f"], ["g"], ["f", "g"], ["g", "f"], ["f", "g", "h"]])
-        fmap = {k: impls[k] for k in which}
         asg = rng.choice([{}, {"N": rng.randint(1, 4)}, {"N": rng.randint(1, 4), "M": rng.randint(1, 4)}])
-        try:
-            ev = evaluate(r.routine, asg, functions_map=fmap).routine
-        except Exception as e:
-            ctx.stats["functions_stream_raised_" + type(e).__name__] += 1
-            continue
-        ctx.stats["functions_stream_cases"] += 1
-        funcs = {k: (lambda *xs, _f=impls[k]: _f(*xs)) for k in which}
         nested = False
-        for (path, a), (_, b) in zip(walk(r.routine), walk(ev)):
-            for (kk, x), (_, y) in zip(exprs(a), exprs(b)):
-                left = E.sympy_heads(y) & set(which)
-                if left:
-                    ctx.violation("failing-input", f"a call of {sorted(left)} remains in {kk[0]} {'.'.join(path) or 'root'}.{kk[1]} after evaluate with functions_map",
-                                  {"qref": q, "assignments_in_order": list(asg.items()), "functions_map": which}, str(y), "no call left")
-                    return
-                for _ in range(2):
-                    rho = {n: Fraction(rng.randint(1, 5)) for n in ("N", "M")}
-                    rho.update({k: Fraction(v) for k, v in asg.items()})
-                    salt = rng.randint(0, 10**6)
-                    try:
-                        exp = E.sympy_ev(x, dict(rho), salt, funcs=funcs)
-                        got = E.sympy_ev(y, dict(rho), salt)
-                    except (E.Undefined, OverflowError, KeyError):
-                        continue
-                    if not compare.close(got, exp, True):
-                        ctx.violation("failing-input", f"user implementation of {which} not applied to every call in {kk[0]} {'.'.join(path) or 'root'}.{kk[1]}",
-                                      {"qref": q, "assignments_in_order": list(asg.items()), "functions_map": which}, {"evaluated": str(y), "value": got}, exp)
-                        return
-                sx = str(x)
-                if "f(f(" in sx.replace(" ", "") or sx.count("f(") >= 2:
-                    nested = True
+        # history: the same routine, assignment and function NAMES are evaluated again with other implementations (every second
+        # case): the later call must apply the implementations it is given
+        rounds = [(IMPL_LAMBDAS, IMPL_TREES, "")] + ([(IMPL_LAMBDAS_B, IMPL_TREES_B, " (second evaluate call, same names, other implementations)")] if i % 2 == 0 else [])
+        for impls, trees, label in rounds:
+          fmap = {k: impls[k] for k in which}
+          try:
+            ev = evaluate(r.routine, asg, functions_map=fmap).routine
+          except Exception as e:
+            ctx.stats["functions_stream_raised_" + type(e).__name__] += 1
+            break
+          ctx.stats["functions_stream_cases"] += 1
+          # the model's `evaluateWith` (BartiqModel/Functions.lean: C05_functions_* are about it) on the same routine, assignment and
+          # functions_map
+          model_correspondence(r.routine, [(k, E.num(v)) for k, v in asg.items()], ev, ctx,
+                               type("Case", (), {"qref": q, "seed": ctx.seed * 1000 + i})(), rng, fns=tuple(which), trees=trees)
+          funcs = {k: (lambda *xs, _f=impls[k]: _f(*xs)) for k in which}
+          for (path, a), (_, b) in zip(walk(r.routine), walk(ev)):
+              for (kk, x), (_, y) in zip(exprs(a), exprs(b)):
+                  left = E.sympy_heads(y) & set(which)
+                  if left:
+                      ctx.violation("failing-input", f"a call of {sorted(left)} remains{label} in {kk[0]} {'.'.join(path) or 'root'}.{kk[1]} after evaluate with functions_map",
+                                    {"qref": q, "assignments_in_order": list(asg.items()), "functions_map": which, "history": label.strip()}, str(y), "no call left")
+                      return
+                  for _ in range(2):
+                      rho = {n: Fraction(rng.randint(1, 5)) for n in ("N", "M")}
+                      rho.update({k: Fraction(v) for k, v in asg.items()})
+                      salt = rng.randint(0, 10**6)
+                      try:
+                          exp = E.sympy_ev(x, dict(rho), salt, funcs=funcs)
+                          got = E.sympy_ev(y, dict(rho), salt)
+                      except (E.Undefined, OverflowError, KeyError):
+                          continue
+                      if not compare.close(got, exp, True):
+                          ctx.violation("failing-input", f"user implementation of {which} not applied to every call{label} in {kk[0]} {'.'.join(path) or 'root'}.{kk[1]}",
+                                        {"qref": q, "assignments_in_order": list(asg.items()), "functions_map": which, "history": label.strip()}, {"evaluated": str(y), "value": got}, exp)
+                          return
+                  sx = str(x)
+                  if "f(f(" in sx.replace(" ", "") or sx.count("f(") >= 2:
+                      nested = True
         if nested:
             ctx.nontrivial(("functions", i))
             ctx.stats["functions_stream_nested_calls"] += 1
